@@ -173,7 +173,8 @@ func checks() map[string]*Check {
 	app("C07", RunSpec{Scen: "w2.nvquorum", Quick: 12, Thorough: 300})
 	app("C10", RunSpec{Scen: "w1", Params: "snapshots=1,crash=1,snapus=6000,pad=40000,voters=3", Quick: 16, Thorough: 400},
 		RunSpec{Scen: "w2.members", Params: "voters=4,snapshots=1,snapthr=4", Quick: 24, Thorough: 600})
-	app("C06", RunSpec{Scen: "w1", Params: "crash=1,torn=1,crashbias=1,steps=30,voters=3", Quick: 16, Thorough: 400})
+	app("C06", RunSpec{Scen: "w1", Params: "crash=1,torn=1,crashbias=1,steps=30,voters=3", Quick: 16, Thorough: 400},
+		RunSpec{Scen: "w2.cfgdiscard", Params: "snapshots=1,snapthr=4,restoreus=150000", Quick: 8, Thorough: 200})
 	app("C07", RunSpec{Scen: "w1", Params: "snapshots=1,crash=1,torn=1,crashbias=1,steps=30", Quick: 24, Thorough: 600})
 	app("C07", RunSpec{Scen: "w2.staleinstall", Params: "snapshots=1,snapthr=6,pad=100", Quick: 16, Thorough: 400}, RunSpec{Scen: "w2.takeover", Quick: 24, Thorough: 600}, RunSpec{Scen: "w2.figure8", Quick: 24, Thorough: 600}, RunSpec{Scen: "w2.acklose", Quick: 16, Thorough: 400})
 	app("C08", RunSpec{Scen: "w2.votes", Quick: 24, Thorough: 600})
@@ -301,6 +302,7 @@ func checks() map[string]*Check {
 			{Scen: "w1", Params: "snapshots=1,crash=0,bounce=1,restoreus=4000,snapthr=5,voters=3", Quick: 24, Thorough: 600},
 			{Scen: "w2.bouncerestore", Params: "snapshots=1,restoreus=15000", Quick: 24, Thorough: 600},
 			{Scen: "w2.hightermrestart", Quick: 12, Thorough: 300},
+			{Scen: "w2.lostreplies", Params: "snapshots=1,snapthr=4", Quick: 12, Thorough: 300},
 			{Scen: "w2.members", Quick: 16, Thorough: 400},
 			{Scen: "codec.e2e", Params: "size=4718592", Quick: 1, Thorough: 2},
 			{Scen: "puppet.is", Params: "cases=30", Quick: 16, Thorough: 400},
